@@ -430,7 +430,9 @@ class Project:
                                 and isinstance(st.value.args[0], ast.Constant) and st.value.args[0].value == len(t.elts):
                             m.assigns[e.id] = ast.copy_location(ast.Constant(value=i), st.value)
                         else:
-                            m.assigns[e.id] = ast.copy_location(ast.Subscript(value=st.value, slice=ast.Constant(value=i), ctx=ast.Load()), st.value)
+                            # unpacking draws from any iterable (a map, a generator): tuple(<expr>)[i]
+                            whole = ast.copy_location(ast.Call(func=ast.Name(id="tuple", ctx=ast.Load()), args=[st.value], keywords=[]), st.value)
+                            m.assigns[e.id] = ast.fix_missing_locations(ast.copy_location(ast.Subscript(value=whole, slice=ast.Constant(value=i), ctx=ast.Load()), st.value))
         elif isinstance(st, ast.AnnAssign) and isinstance(st.target, ast.Name) and st.value is not None:
             m.assigns[st.target.id] = st.value
         elif isinstance(st, (ast.If, ast.Try)):
